@@ -22,6 +22,27 @@ TRUSTED_BASE = c01.TRUSTED_BASE
 ASSUMPTIONS = ["dtype truthfulness is a finite table of NumPy casting results with no symbolic domain: only the dtype recorded for the backing array is compared with the declared one"]
 
 
+def dtype_store_existing(n, c, tc, lazy, tdt):
+    """the array store()/to_zarr return for an EXISTING target reports a dtype: it must be the dtype of the Zarr array that backs it
+    (or the call must be refused) -- the values are cast to the target's dtype when they are written"""
+    import cubed
+    from geom import backend as G
+
+    c01._start()
+    sx.assume(c <= n)
+    sx.assume(tc <= n)
+    x = G.stub_array("x", (n,), (c,))
+    src = c01._xp().negative(x) if sx.conc(lazy) else x
+    tdtype = ["float64", "int32", "float32"][sx.conc(tdt)]
+    target = G.ZStub((n,), (tc,), tdtype)
+    try:
+        (out,) = cubed.store([src], [target], compute=False)
+    except (ValueError, TypeError, NotImplementedError):
+        return  # refused up front: allowed
+    z = out._zarray
+    sx.require(str(z.dtype) == str(out.dtype), "declared-dtype-differs-from-the-backing-array", f"result reports {out.dtype}, the Zarr array it is written to has {z.dtype}")
+
+
 def obligations(tier):
     N = 6 if tier == "quick" else 10
     wall = 600 if tier == "quick" else 3000
@@ -49,6 +70,10 @@ def obligations(tier):
                 witness_rule=lambda m: m.get("n", m.get("n1", 0)) >= 2,
             )
         )
+    obls.append(Obl("dtype[store-existing-target]", dtype_store_existing, [("n", 1, N), ("c", 1, N), ("tc", 1, N), ("lazy", 0, 1), ("tdt", 0, 2)], allowed=c01.ALLOWED, setup=c01.setup,
+                    functions=c01._functions(), wall_s=wall,
+                    bounds=f"store of a float64 source (leaf or uncomputed) of length <= {N} into an existing target with its own chunking whose dtype is float64, int32 or float32",
+                    outside="which values a cast produces (NumPy's casting table)", stubs=["geom.ZStub target"], witness_rule=lambda m: m["tdt"] >= 1))
     fn, vs = c01.SCENARIOS["concat"]
 
     def twin(**kw):
